@@ -35,7 +35,7 @@ PROBES = ['save_subset_of_its', 'save_unsorted_it', 'overwrite',
           'io_fault_fired_in_read', 'read_after_failed_save',
           'uncertain_entry_compared', 'scribbled_on_returned_arrays',
           'scribbled_on_saved_arrays', 'save_unknown_var_raises',
-          'kept_returned_arrays']
+          'kept_returned_arrays', 'second_store_directory']
 COMPONENTS = {'aurel.reading.save_data': 'real', 'aurel.reading.read_data':
               'real', 'aurel.reading.read_aurel_data': 'real', 'h5py + '
               'filesystem (tmpfs scratch dir)': 'real',
@@ -147,6 +147,13 @@ def generate(rng, tier):
                 ops[-1]['fault'] = seams_h5.gen_fault(gf, ('open_r',))
             if cfg['scribble'] and gf.chance(0.6):
                 ops[-1]['scribble'] = True
+    # a second store directory used in the same session: some of the ops go
+    # there (own reference model)
+    ga = rng.child('altstore')
+    if ga.chance(0.15):
+        for o in ops:
+            if ga.chance(0.4):
+                o['alt'] = True
     return {'config': cfg, 'ops': ops}
 
 
@@ -163,7 +170,7 @@ def simplify(run):
     if run['config']['dir'] != 'store':
         c = copy.deepcopy(run); c['config']['dir'] = 'store'; yield c
     for i, op in enumerate(run['ops']):
-        for fk in ('fault', 'bad_var', 'scribble'):
+        for fk in ('fault', 'bad_var', 'scribble', 'alt'):
             if op.get(fk):
                 c = copy.deepcopy(run); del c['ops'][i][fk]; yield c
         if op.get('fault') and op['fault']['at'] > 1:
@@ -255,11 +262,12 @@ def _execute(run, aurel, plan):
         probes[k] = probes.get(k, 0) + 1
 
     datapath = cfg['dir'] + ('/' if cfg['slash'] else '')
-    param = {'datapath': datapath}
+    stores = {False: ({'datapath': datapath}, {}),
+              True: ({'datapath': 'second_' + datapath}, {})}
     # it -> {(var, rl): [candidates]}; a candidate is an array or None
     # (= absent).  One candidate = the entry is known exactly; several = a
     # failed save left it "old, new or absent" (never anything else).
-    model = {}
+    param, model = stores[False]
     origin = {}           # digest -> description
     compared = 0
     stop = False
@@ -278,6 +286,9 @@ def _execute(run, aurel, plan):
     for opi, op in enumerate(run['ops']):
         if stop:
             break
+        param, model = stores[bool(op.get('alt'))]
+        if op.get('alt'):
+            probe('second_store_directory')
         if op['op'] == 'save':
             its = list(op['its'])
             data = {}
@@ -562,7 +573,7 @@ def _execute(run, aurel, plan):
             if viol:
                 break
     kinds = ','.join(o['op'][0] for o in run['ops'])
-    nstored = sum(len(d) for d in model.values())
+    nstored = sum(len(d) for _, m_ in stores.values() for d in m_.values())
     state_sig = digest([kinds, sorted(faults.items()), nstored])
     return {'violations': viol[:6], 'digest': tr.hexdigest(),
             'n_ops': len(run['ops']), 'faults': faults, 'probes': probes,
